@@ -49,7 +49,9 @@ CHECKS = {
             CLIENT + "Theorems: success under enforcement implies the final root, timestamp, snapshot and targets are unexpired; "
             "a clock earlier than the recorded time makes cycle and read fail; with enforcement off no failure has a time "
             "cause (all code variants); expiry is only reported for expired documents; read_target succeeds only strictly "
-            "before the earliest of the four expirations.",
+            "before the earliest of the four expirations; conversely only those four expirations can stop an uninterrupted "
+            "cycle against a valid repository - stepping-stone roots and delegated roles are not asked for theirs "
+            "(C04_only_these_expirations_matter, with an expired stepping stone evaluated in C04_expired_stepping_stone).",
             NOTE + MODELLED + " One clock sample per operation in the model.", "5/C04"),
     "C05": ("Coq proof that each accepted file is the one served under the pinned name with the pinned version, digest and "
             "length bound; differential correspondence over all cross-combinations of three repository states",
